@@ -40,6 +40,16 @@ def _comp_over(ex, e, g, st, it):
     raise Unsupported(f'comprehension over {it!r} (line {e.lineno} in {ex.spec.qual})')
 
 
+def _skeleton(n):
+    """structure of an expression: node kinds only (every operator is 'op', every name 'n', every constant 'c', attribute names dropped)"""
+    if isinstance(n, (ast.operator, ast.cmpop, ast.boolop, ast.unaryop)): return 'op'
+    if isinstance(n, ast.Name): return 'n'
+    if isinstance(n, ast.Constant): return 'c'
+    if isinstance(n, ast.expr_context): return ''
+    kids = [_skeleton(c) for c in ast.iter_child_nodes(n)]
+    return type(n).__name__ + '(' + ','.join(k for k in kids if k) + ')'
+
+
 def comp_key(ex, e):
     """static identity of a comprehension: 'comp:for <target> in <iter>' + ordinal among equal headers"""
     hdr = lambda n: f'comp:for {ast.unparse(n.generators[0].target)} in {ast.unparse(n.generators[0].iter)}'
@@ -49,8 +59,10 @@ def comp_key(ex, e):
     # the invariant of a comprehension describes the items it produces: it belongs to this element expression and this filter only
     # (a comprehension with the same header but another element is a different loop: no invariant, cut trivially, decided 'undecided')
     import hashlib
-    shape = ast.unparse(e.key) + ':' + ast.unparse(e.value) if isinstance(e, ast.DictComp) else ast.unparse(e.elt)
-    shape += '|' + '|'.join(ast.unparse(t) for t in e.generators[0].ifs)
+    # ... more precisely to the *shape* of the element and of the filter (node kinds; names, constants and operator kinds are not part of it,
+    # so that a changed operator or attribute inside the same shape is still checked against the invariant -- and refuted by it)
+    shape = _skeleton(e.key) + ':' + _skeleton(e.value) if isinstance(e, ast.DictComp) else _skeleton(e.elt)
+    shape += '|' + '|'.join(_skeleton(t) for t in e.generators[0].ifs)
     h = hashlib.sha1(shape.encode()).hexdigest()[:6]
     base = hdr(e).replace('comp:', f'comp[{h}]:', 1)
     return base if k == 0 else f'{base}#{k}'
